@@ -46,7 +46,8 @@ where
     {
         let size: usize = infos.size();
 
-        let lvl_0: usize = LWEPlaintext::bytes_of(size);
+        // 8 bytes per limb: rounded up so that the buffer taken next still finds its aligned space.
+        let lvl_0: usize = LWEPlaintext::bytes_of(size).next_multiple_of(poulpy_hal::DEFAULTALIGN);
         let lvl_1: usize = self.vec_znx_normalize_tmp_bytes();
 
         lvl_0 + lvl_1
